@@ -25,7 +25,7 @@ LEVEL_TEXT = ("Exploration: sequences with global and local drives, DMM, SLM, ph
 LEVEL_NOTE = ("Negating all phases is complex conjugation (time reversal), a symmetry of the reported quantities only without detuning and interaction; "
               "it is checked there, and in its general form: negate phases AND detunings AND the sign of a user interaction matrix => same occupations, energy sign flipped.")
 RULE = "(backend, transformation, N, channels, phase set); distinct = that tuple + hash; non-trivial = some occupation > 1e-3 and the transformation is not the identity"
-ASSUMPTIONS = ["exact transformations: tolerance 1e-7 (sv) / 1e-6 + 5% of the two runs' measured TDVP error (mps, reordering off; energy relative to |H|); arbitrary rotation: 2e-4 (coordinates are rounded to 1e-6 um by Pulser, U ~ r^-6)",
+ASSUMPTIONS = ["exact transformations: tolerance 1e-7 (sv) / 1e-6 + the two runs' measured distances to exact evolution of their own recorded parameters (triangle inequality) (mps, reordering off; energy relative to |H|); arbitrary rotation: 2e-4 (coordinates are rounded to 1e-6 um by Pulser, U ~ r^-6)",
                "phase negation is only asserted (a) for delta == 0 and a zero interaction matrix, (b) combined with delta -> -delta and U -> -U (user matrix), where it is a symmetry",
                "phase transformations are applied to sequences in which no atom is driven by two channels at once (Pulser adds the phases of overlapping channels, so a common offset would count twice there)",
                "bitstrings: marginal frequencies of the two runs agree within 6 sigma of the binomial error (emu-mps) / Born probabilities agree (emu-sv)"]
@@ -228,10 +228,11 @@ def run_case(case):
         # equivalent inputs differ by a few percent of that error (measured 6e-6; 3e-16 for emu-sv). The comparison tolerance therefore
         # carries 5% of the two runs' measured distance to exact evolution of their own recorded parameters (N <= 7), and the energy is
         # compared relative to the size of the Hamiltonian, not of the (possibly cancelling) energy itself.
-        own = []
+        own, exact_states = [], []
         for snap_, res_ in ((s1, r1), (s2, r2)):
             if n <= 7:
                 st_, hm_ = e2e.propagate(snap_, None, umode="mid")
+                exact_states.append((snap_, st_))
                 got_ = e2e.to_np(e2e.get_at(res_, "correlation_matrix", 1.0)).astype(float)
                 own.append(float(np.abs(got_ - ref.correlations(st_[-1], n, 2)).max()))
                 hscale = max(hscale, 1.0 + max(float(np.linalg.norm(h_, 2)) for h_ in hm_[:: max(1, len(hm_) // 8)]))
@@ -240,7 +241,7 @@ def run_case(case):
                 hscale = max(hscale, 1.0 + float(np.abs(snap_["delta"]).sum(axis=1).max() + np.abs(snap_["omega"]).sum(axis=1).max() / 2))
         if max(own) > 2e-2:
             viol.append({"key": f"C29:run-disagrees-with-its-own-step-parameters-under-{tr}:{bk}", "msg": f"{fp}: distance to exact evolution {own}"})
-        tol = tol + 0.05 * sum(own)
+        tol_base = tol
         worst["mps_own_tdvp_error"] = max(worst.get("mps_own_tdvp_error", 0.0), max(own))
     for t in times:
         o1, o2 = e2e.to_np(e2e.get_at(r1, "occupation", t)).astype(float), e2e.to_np(e2e.get_at(r2, "occupation", t)).astype(float)
@@ -248,6 +249,16 @@ def run_case(case):
         E1, E2 = float(e2e.get_at(r1, "energy", t)), float(e2e.get_at(r2, "energy", t))
         cnt["values_compared"] += 3
         moved = moved or o1.max() > 1e-3
+        if bk == "mps":
+            # two runs that are each within dev_i of the SAME exact value cannot differ by more than dev_1 + dev_2: a sound allowance
+            if len(exact_states) == 2:
+                devs = []
+                for (snap_, st_), c_ in zip(exact_states, (c1, c2)):
+                    k_, _off = e2e.time_index(snap_, t)
+                    devs.append(float(np.abs(c_ - ref.correlations(st_[k_], n, 2)).max()))
+                tol = tol_base + sum(devs)
+            else:
+                tol = tol_base + 4e-4
         d_o, d_c, d_e = float(np.abs(o1 - o2).max()), float(np.abs(c1 - c2).max()), abs(E1 - esign * E2) / (max(hscale, 1 + abs(E1)) if bk == "mps" else (1 + abs(E1)))
         worst[f"{tol_class}_occupation_diff_over_tol"] = max(worst.get(f"{tol_class}_occupation_diff_over_tol", 0.0), d_o / tol)
         worst[f"{tol_class}_energy_diff_over_tol"] = max(worst.get(f"{tol_class}_energy_diff_over_tol", 0.0), d_e / (tol * 10))
